@@ -61,5 +61,14 @@ out['__callshapes__'] = shapes
 out['__functions__'] = sorted(allfuncs)
 out['__alldefs__'] = alldefs
 out['__calls__'] = {k: v for k, v in calls.items() if v}
+# method pairs of the two catalog classes that are near-clones on the reference tree (sa/rules/common.run_clones)
+try:
+    from sa.core import load_repo
+    from sa.report import Result
+    from sa.rules import common as _C
+    _A, _B = 'photutils.segmentation.catalog.SourceCatalog', 'photutils.aperture.stats.ApertureStats'
+    out['__clones__'] = {f'{_A}|{_B}': _C.run_clones(load_repo(), Result('GEN'), _A, _B, collect_only=True)}
+except Exception as exc:      # the table is still usable without it
+    print('clone table not generated:', exc)
 json.dump({k: out[k] for k in sorted(out)}, open(os.path.join(V, 'canon_locals.json'), 'w'), indent=0)
 print(len(allfuncs), 'functions,', sum(len(v) for k, v in out.items() if not k.startswith('__')), 'locals')
